@@ -24,11 +24,12 @@ def f32(x):
 
 
 class FEv(bs.Ev):
-    """integer/float expressions with crate constants"""
+    """integer/float expressions with crate constants, `self.<field>` values and calls of small crate functions"""
 
-    def __init__(self, F, f, env):
+    def __init__(self, F, f, env, fields=None):
         bs.Ev.__init__(self, f, env, None, None)
         self.F = F
+        self.fields = fields or {}
 
     def _ev(self, e):
         raw = e
@@ -44,6 +45,34 @@ class FEv(bs.Ev):
             return v
         e = hu.strip_casts(e)
         k = e.get("k")
+        if k == "field" and e["name"] in self.fields:
+            return self.fields[e["name"]]
+        if k == "mcall" and e["name"] in ("next_power_of_two", "is_power_of_two", "max", "min") and \
+                any(n.startswith("core::num::") or n.startswith("std::cmp::Ord::") for n in hir_callee(e)):
+            a = self.ev(e["recv"])
+            if e["name"] == "next_power_of_two":
+                v = 1
+                while v < a:
+                    v *= 2
+                return v
+            if e["name"] == "is_power_of_two":
+                return a > 0 and (a & (a - 1)) == 0
+            b = self.ev(e["args"][0])
+            return max(a, b) if e["name"] == "max" else min(a, b)
+        if k in ("call", "mcall"):
+            for n in hir_callee(e):
+                g = self.F.fn(n, required=False)
+                if g is not None and g.hir is not None and not g.is_closure and n.count("::") >= 1 and not n.endswith("::home_slot") \
+                        and not n.endswith("::capacity"):
+                    args = ([e["recv"]] if k == "mcall" else []) + list(e["args"])
+                    pats = g.hir["params"]
+                    if len(pats) == len(args) and all(p.get("k") == "bind" for p in pats):
+                        env = {}
+                        for p_, a in zip(pats, args):
+                            if p_.get("name") == "self":
+                                continue
+                            env[p_["id"]] = self.ev(a)
+                        return FEv(self.F, g, env, self.fields).ev(g.hir["body"])
         if k == "lit" and e["lit"]["k"] == "float":
             v = float(e["lit"]["v"])
             return f32(v) if e.get("ty") == "f32" else v
@@ -251,3 +280,80 @@ def decide_caller(F, maygc, f, lines):
 
 def _ord(n):
     return "%d%s" % (n, "th" if 10 <= n % 100 <= 20 else {1: "st", 2: "nd", 3: "rd"}.get(n % 10, "th"))
+
+
+def free_slot_after_resize(F, table_path, pot):
+    """For every call of <table>::adjust_capacity: in every state (count < capacity, small values) in which the guards around
+    the call hold, the new capacity computed by adjust_capacity exceeds the number of stored items (a free slot remains, so
+    probes for absent keys terminate). -> list of (fn, ln, ok|bad|undecided, message)"""
+    out = []
+    adj = F.fn(table_path + "::adjust_capacity")
+    ap = [p for p in adj.hir["params"] if p.get("name") != "self"]
+    # the capacity adjust_capacity really installs: the value stored into self.capacity
+    newcap_expr = None
+    for x in hir_walk(adj.hir["body"]):
+        if x.get("k") == "assign":
+            l = hir_strip(x["l"])
+            if l.get("k") == "field" and l["name"] == "capacity":
+                newcap_expr = x["r"]
+        elif x.get("k") == "call" and any(n.endswith("mem::replace") for n in hir_callee(x)):
+            a0 = hu.strip_all(x["args"][0])
+            if a0.get("k") == "field" and a0["name"] == "capacity":
+                newcap_expr = x["args"][1]
+    if newcap_expr is None:
+        raise bs.Unknown("adjust_capacity does not store self.capacity")
+    caps = [1, 2, 4, 8, 16, 32, 64] if pot else list(range(1, 41))
+    for f in F.fns:
+        if not f.hir or f.is_closure or f.short == adj.short:
+            continue
+        anc = None
+        for x in hir_walk(f.hir["body"]):
+            if not (x.get("k") in ("mcall", "call") and any(n == adj.short for n in hir_callee(x))):
+                continue
+            if anc is None:
+                anc = hu.control_ancestors(f.hir["body"])
+                ifs = {id(y): y for y in hir_walk(f.hir["body"]) if y.get("k") == "if"}
+            arg = x["args"][0] if x.get("k") == "mcall" else x["args"][1]
+            guards = []
+            for kind, nid in anc.get(id(x), ()):
+                if kind in ("then", "else") and nid in ifs:
+                    guards.append((ifs[nid]["cond"], kind == "then"))
+            params = [p for p in f.hir["params"] if p.get("k") == "bind" and p.get("name") != "self" and p.get("ty") in ("usize", "u32", "u64")]
+            bad_at = None
+            n_states = 0
+            try:
+                for c in caps:
+                    for n in range(0, c):
+                        pvals = [0, 1, 2, 3, 5, 8, 13, 40] if params else [None]
+                        for pv in pvals:
+                            env = {p["id"]: pv for p in params}
+                            fields = {"count": n, "capacity": c}
+                            try:
+                                if not all(bool(FEv(F, f, env, fields).ev(g)) == want for g, want in guards):
+                                    continue
+                                a = FEv(F, f, env, fields).ev(arg)
+                            except bs.Overflow:
+                                continue
+                            newc = a
+                            if newcap_expr is not None:
+                                newc = FEv(F, adj, {ap[0]["id"]: int(a)}, fields).ev(newcap_expr)
+                            n_states += 1
+                            if not (n < newc):
+                                bad_at = (n, c, pv, int(a), newc)
+                                break
+                        if bad_at:
+                            break
+                    if bad_at:
+                        break
+            except bs.Unknown as u:
+                out.append((f, x.get("ln"), "undecided", "resize argument not understood: %s" % u))
+                continue
+            if bad_at:
+                n, c, pv, a, newc = bad_at
+                out.append((f, x.get("ln"), "bad",
+                            "%s resizes the table to %d slots (adjust_capacity(%d)) while it holds %d items (state: count %d, capacity %d%s): "
+                            "no slot is left empty, a lookup of a handle that is not in the table probes forever"
+                            % (f.name, newc, a, n, n, c, "" if pv is None else ", argument %d" % pv)))
+            else:
+                out.append((f, x.get("ln"), "ok", "a free slot remains after the resize in all %d small states (count < capacity <= %d)" % (n_states, caps[-1])))
+    return out
